@@ -7,7 +7,10 @@ package main
 import (
 	"context"
 	"fmt"
+	"github.com/smart-core-os/sc-api/go/traits"
+	"github.com/smart-core-os/sc-api/go/types"
 	"google.golang.org/protobuf/encoding/protowire"
+	"google.golang.org/protobuf/types/known/timestamppb"
 	"strings"
 
 	"google.golang.org/protobuf/proto"
@@ -221,6 +224,10 @@ func corrupt() [][]string {
 	return out
 }
 
+func masks_FilterClone(mask *fieldmaskpb.FieldMask, m proto.Message) proto.Message {
+	return masks.NewResponseFilter(masks.WithFieldMask(mask)).FilterClone(m)
+}
+
 func main() {
 	h := hx.New("C06")
 	h.Seq("reads", func(s *hx.Seq) {
@@ -271,6 +278,53 @@ func main() {
 				}
 			}
 			_ = mi
+		}
+		// trait messages: theirs are the field names that are prefixes of a sibling's (state / state_change_time,
+		// gain / gain_tween): every mask of one or two top-level fields, through the filter, a Value and a Collection
+		if s.Own() {
+			tmsgs := []proto.Message{
+				&traits.Occupancy{State: traits.Occupancy_OCCUPIED, PeopleCount: 3, StateChangeTime: &timestamppb.Timestamp{Seconds: 5}, Confidence: 0.5},
+				&types.AudioLevel{Gain: 4, GainTween: &types.Tween{Progress: 50}, Muted: true},
+				&traits.Emergency{Level: traits.Emergency_WARNING, Reason: "r", LevelChangeTime: &timestamppb.Timestamp{Seconds: 7}, Silent: true},
+			}
+			for _, m := range tmsgs {
+				fds := m.ProtoReflect().Descriptor().Fields()
+				var names []string
+				for i := 0; i < fds.Len(); i++ {
+					names = append(names, string(fds.Get(i).Name()))
+				}
+				var masks [][]string
+				for i := range names {
+					masks = append(masks, []string{names[i]})
+					for j := range names {
+						if i != j {
+							masks = append(masks, []string{names[i], names[j]})
+						}
+					}
+				}
+				for _, paths := range masks {
+					mask := &fieldmaskpb.FieldMask{Paths: paths}
+					want := lib.Project(m, mask)
+					name := fmt.Sprintf("%s mask=%v", m.ProtoReflect().Descriptor().Name(), paths)
+					s.State(name)
+					for _, via := range []string{"filter", "value", "collection"} {
+						s.Eval(1)
+						s.Trans(1)
+						var got proto.Message
+						switch via {
+						case "filter":
+							got = masks_FilterClone(mask, proto.Clone(m))
+						case "value":
+							got = resource.NewValue(resource.WithInitialValue(proto.Clone(m))).Get(resource.WithReadMask(mask))
+						case "collection":
+							got, _ = resource.NewCollection(resource.WithInitialRecord("a", proto.Clone(m))).Get("a", resource.WithReadMask(mask))
+						}
+						if !proto.Equal(got, want) {
+							s.Fail(fmt.Sprintf("projection %s via %s", name, via), fmt.Sprintf("read returned %v, the projection is %v", got, want), nil)
+						}
+					}
+				}
+			}
 		}
 		// a typed nil pointer is a message too (an invalid, empty one): no mask may make a read of it panic
 		if s.Own() {
